@@ -3,6 +3,7 @@
 # property (quick tier, plus the checks listed in extra_checks) and stores result.json next to them.
 cd /verif
 for d in seeded/*${1}*/; do
+  tools/trimcache.sh
   n=$(basename $d)
   extra=""
   [ -f $d/extra_checks ] && extra=$(cat $d/extra_checks)
